@@ -125,6 +125,13 @@ def templates(F, S, rng):
             add('plot.violin', kind + ':mutable-kwargs',
                 lambda d=d: F.plot.violin([d, d[:60], d[20:]], 1, positions=[1.0, 2.0, 3.0], yscale='logicle', ylim=[-100.0, 3000.0],
                                           violin_kwargs={'facecolor': 'gray'}, draw_summary_stat_kwargs={'color': 'k'}, bin_edges=None))
+            add('plot.violin', kind + ':log-position-zero:per-violin-bin-edges',
+                lambda d=d: F.plot.violin([d, d[:60], d[20:]], 1, positions=[0.0, 10.0, 100.0], xscale='log', yscale='linear',
+                                          bin_edges=[np.linspace(0, 1100, 20), np.linspace(0, 1100, 20), np.linspace(0, 1100, 20)]))
+            add('plot.violin_dose_response', kind + ':log-position-zero:per-violin-bin-edges',
+                lambda d=d: F.plot.violin_dose_response([d, d[:60], d[20:]], 1, [10.0, 0.0, 100.0], xscale='log', yscale='linear',
+                                                        bin_edges=[np.linspace(0, 1100, 20), np.linspace(0, 1100, 20),
+                                                                   np.linspace(0, 1100, 20)]))
             add('plot.violin', kind + ':bin-edges-list',
                 lambda d=d: F.plot.violin([d, d[:60]], 1, positions=[1.0, 2.0], yscale='linear', bin_edges=list(np.linspace(0, 1100, 20))))
             add('plot.density_and_hist', kind,
@@ -226,6 +233,14 @@ def random_plot_call(F, S, rng):
         if rng.random() < 0.3:
             kw['draw_summary_stat_kwargs'] = {'color': 'k', 'linewidth': 2}
             kw['draw_log_zero_divider_kwargs'] = {'color': 'r'}
+        if rng.random() < 0.5:
+            # caller-owned bin specification: one edge array, or a list / tuple of per-violin edge arrays
+            e = np.logspace(0, 5.5, 21) if dscale == 'log' else np.linspace(-300.0, 1100.0 if kind == 'int' else 262144.0, 21)
+            be = int(rng.integers(4))
+            kw['bin_edges'] = [e, [e.copy(), e.copy() * 1.0, e.copy()], (e.copy(), e.copy(), e.copy()), list(e)][be]
+            if which == 'violin_dose_response' and rng.random() < 0.5:
+                kw['min_bin_edges'] = e.copy()
+                kw['max_bin_edges'] = list(e)
         if which == 'violin':
             vert = bool(rng.random() < 0.6)
             if vert:
